@@ -123,6 +123,67 @@ impl<const T: u8> MarketAgent for MProbe<T> {
     }
 }
 
+/// other spellings of the probe type (see shapes/gen.py SPELL)
+#[allow(non_camel_case_types)]
+pub mod env_spell {
+    pub type OptionsDesk<const T: u8> = super::Probe<T>;
+    pub type VectorisedMakers<const T: u8> = super::Probe<T>;
+    pub type Stringer<const T: u8> = super::Probe<T>;
+    pub type boolean_desk<const T: u8> = super::Probe<T>;
+    pub type charting<const T: u8> = super::Probe<T>;
+    pub type f32_desk<const T: u8> = super::Probe<T>;
+    pub type u64_flow<const T: u8> = super::Probe<T>;
+    pub type isize_mm<const T: u8> = super::Probe<T>;
+    pub type HashMapped<const T: u8> = super::Probe<T>;
+    pub type BTreeMapped<const T: u8> = super::Probe<T>;
+    pub type PhantomDataDesk<const T: u8> = super::Probe<T>;
+    pub mod strategies {
+        pub type Trend<const T: u8> = super::super::Probe<T>;
+    }
+    pub mod charts {
+        pub type Follower<const T: u8> = super::super::Probe<T>;
+    }
+    pub mod u8x {
+        pub type Desk<const T: u8> = super::super::Probe<T>;
+    }
+    pub mod i128s {
+        pub type Desk<const T: u8> = super::super::Probe<T>;
+    }
+    pub mod usize_agents {
+        pub type Mm<const T: u8> = super::super::Probe<T>;
+    }
+}
+/// other spellings of the probe type (see shapes/gen.py SPELL)
+#[allow(non_camel_case_types)]
+pub mod mkt_spell {
+    pub type OptionsDesk<const T: u8> = super::MProbe<T>;
+    pub type VectorisedMakers<const T: u8> = super::MProbe<T>;
+    pub type Stringer<const T: u8> = super::MProbe<T>;
+    pub type boolean_desk<const T: u8> = super::MProbe<T>;
+    pub type charting<const T: u8> = super::MProbe<T>;
+    pub type f32_desk<const T: u8> = super::MProbe<T>;
+    pub type u64_flow<const T: u8> = super::MProbe<T>;
+    pub type isize_mm<const T: u8> = super::MProbe<T>;
+    pub type HashMapped<const T: u8> = super::MProbe<T>;
+    pub type BTreeMapped<const T: u8> = super::MProbe<T>;
+    pub type PhantomDataDesk<const T: u8> = super::MProbe<T>;
+    pub mod strategies {
+        pub type Trend<const T: u8> = super::super::MProbe<T>;
+    }
+    pub mod charts {
+        pub type Follower<const T: u8> = super::super::MProbe<T>;
+    }
+    pub mod u8x {
+        pub type Desk<const T: u8> = super::super::MProbe<T>;
+    }
+    pub mod i128s {
+        pub type Desk<const T: u8> = super::super::MProbe<T>;
+    }
+    pub mod usize_agents {
+        pub type Mm<const T: u8> = super::super::MProbe<T>;
+    }
+}
+
 pub struct ShapeEntry {
     pub name: &'static str,
     pub fields: usize,
